@@ -131,6 +131,150 @@ pub proof fn lemma_opt_unwrap<R: Registry>(s: Seq<Option<Slot<R>>>, t: Seq<Slot<
         lemma_opt_unwrap(s.drop_last(), t.drop_last());
     }
 }
+
+/// the exit state of the claiming loops makes a well-formed allocator that agrees with the tables
+pub proof fn lemma_de_end<R: Registry>(vx_sl: Seq<Option<Slot<R>>>, vx_fr: Seq<entity::Identifier>,
+    vx_m: IMap<archetype::IdentifierRef<R>, archetype::Archetype<R>>, keys: Seq<archetype::IdentifierRef<R>>, a: Allocator<R>)
+    requires
+        vx_enum(vx_m, keys),
+        forall|k: archetype::IdentifierRef<R>| vx_m.dom().contains(k) ==> (#[trigger] vx_m[k]).wf() && vx_m[k].key() == k,
+        vx_free_claimed(vx_sl, vx_fr, vx_fr.len() as int),
+        forall|j: int| 0 <= j < keys.len() ==> vx_rows_claimed(vx_sl, #[trigger] vx_m[keys[j]], keys[j], vx_m[keys[j]].length as int),
+        forall|s: int| 0 <= s < vx_sl.len() && (#[trigger] vx_sl[s]) is Some ==> vx_claimed_by(s, vx_fr, vx_fr.len() as int, vx_m, keys, keys.len() as int, 0),
+        forall|s: int| 0 <= s < vx_sl.len() ==> (#[trigger] vx_sl[s]) is Some,
+        vx_opt_active(vx_sl) == vx_sum_keys(vx_m, keys),
+        a.slots@.len() == vx_sl.len(), forall|s: int| 0 <= s < vx_sl.len() ==> (#[trigger] a.slots@[s]) == vx_sl[s]->0,
+        a.free@.len() == vx_fr.len(), forall|j: int| 0 <= j < vx_fr.len() ==> (#[trigger] a.free@[j]) == vx_fr[j].index,
+    ensures
+        a.wf(),
+        forall|k: archetype::IdentifierRef<R>| vx_m.dom().contains(k) ==> (#[trigger] vx_m[k]).agrees(&a),
+        vx_de_ids_stored(vx_m, &a),
+        a.active_count() == vx_total_rows(vx_m),
+        forall|j: int| 0 <= j < vx_fr.len() ==> (#[trigger] vx_fr[j]).index < vx_sl.len() && a.slots@[vx_fr[j].index as int].generation == vx_fr[j].generation,
+{
+            let n = keys.len() as int;
+            assert(a.slots@.len() == vx_sl.len());
+            assert forall|s: int| 0 <= s < vx_sl.len() implies (#[trigger] a.slots@[s]) == vx_sl[s]->0 && vx_sl[s] is Some by { }
+            // free list: in bounds, inactive, distinct
+            assert forall|j: int| 0 <= j < a.free@.len() implies (#[trigger] a.free@[j]) < a.slots@.len() && a.slots@[a.free@[j] as int].location is None by {
+                assert(a.free@[j] == vx_fr[j].index);
+                assert(vx_sl[vx_fr[j].index as int] == vx_free_slot::<R>(vx_fr[j]));
+            }
+            assert forall|i: int, j: int| 0 <= i < j < a.free@.len() implies a.free@[i] != a.free@[j] by {
+                assert(vx_fr[i].index != vx_fr[j].index);
+            }
+            // complete: an inactive slot was claimed by a free entry (rows claim active slots)
+            assert forall|s: int| 0 <= s < a.slots@.len() && (#[trigger] a.slots@[s]).location is None implies a.free@.contains(s as usize) by {
+                assert(vx_sl[s] is Some);
+                assert(vx_claimed_by(s, vx_fr, vx_fr.len() as int, vx_m, keys, n, 0));
+                if exists|j: int, q: int| 0 <= j < n && 0 <= q < vx_m[keys[j]].length && (#[trigger] vx_m[keys[j]].ids()[q]).index == s {
+                    let (j, q) = choose|j: int, q: int| 0 <= j < n && 0 <= q < vx_m[keys[j]].length && (#[trigger] vx_m[keys[j]].ids()[q]).index == s;
+                    assert(vx_rows_claimed(vx_sl, vx_m[keys[j]], keys[j], vx_m[keys[j]].length as int));
+                    assert(vx_sl[s] == vx_row_slot(vx_m[keys[j]], keys[j], q));
+                    assert(false);
+                }
+                let j = choose|j: int| 0 <= j < vx_fr.len() && (#[trigger] vx_fr[j]).index == s;
+                assert(a.free@[j] == s as usize);
+            }
+            assert(a.wf());
+            // entity count: active slots == claimed slots with a location == rows of all tables
+            lemma_opt_unwrap(vx_sl, a.slots@);
+            lemma_total_rows(vx_m, keys);
+            assert(a.active_count() == vx_total_rows(vx_m));
+            // every table agrees with the allocator
+            assert forall|k: archetype::IdentifierRef<R>| vx_m.dom().contains(k) implies (#[trigger] vx_m[k]).agrees(&a) by {
+                assert(keys.contains(k));
+                let j = choose|j: int| 0 <= j < n && keys[j] == k;
+                let tb = vx_m[k];
+                assert(tb.key() == k);
+                assert(vx_rows_claimed(vx_sl, vx_m[keys[j]], keys[j], vx_m[keys[j]].length as int));
+                assert forall|q: int| 0 <= q < tb.length implies a.resolves(#[trigger] tb.ids()[q])
+                    && a.view()[tb.ids()[q]] == (Location { identifier: tb.key(), index: q as usize }) by {
+                    assert(vx_sl[tb.ids()[q].index as int] == vx_row_slot(tb, k, q));
+                }
+            }
+            // every accepted identifier is stored
+            assert forall|id: entity::Identifier| a.resolves(id) implies ({
+                let l = #[trigger] a.view()[id];
+                vx_m.dom().contains(l.identifier) && l.index < vx_m[l.identifier].length && vx_m[l.identifier].ids()[l.index as int] == id
+            }) by {
+                let s = id.index as int;
+                assert(vx_sl[s] is Some);
+                assert(vx_claimed_by(s, vx_fr, vx_fr.len() as int, vx_m, keys, n, 0));
+                if exists|j: int| 0 <= j < vx_fr.len() && (#[trigger] vx_fr[j]).index == s {
+                    let j = choose|j: int| 0 <= j < vx_fr.len() && (#[trigger] vx_fr[j]).index == s;
+                    assert(vx_sl[s] == vx_free_slot::<R>(vx_fr[j]));
+                    assert(false);
+                }
+                let (j, q) = choose|j: int, q: int| 0 <= j < n && 0 <= q < vx_m[keys[j]].length && (#[trigger] vx_m[keys[j]].ids()[q]).index == s;
+                let tb = vx_m[keys[j]];
+                assert(keys.contains(keys[j]));
+                assert(vx_m.dom().contains(keys[j]));
+                assert(vx_rows_claimed(vx_sl, tb, keys[j], tb.length as int));
+                assert(vx_sl[s] == vx_row_slot(tb, keys[j], q));
+                assert(tb.ids()[q].generation == id.generation && tb.ids()[q].index == id.index);
+                assert(tb.ids()[q] == id);
+            }
+
+    assert forall|j: int| 0 <= j < vx_fr.len() implies (#[trigger] vx_fr[j]).index < vx_sl.len() && a.slots@[vx_fr[j].index as int].generation == vx_fr[j].generation by {
+        assert(vx_sl[vx_fr[j].index as int] == vx_free_slot::<R>(vx_fr[j]));
+    }
+}
+
+/// one step of the row-claiming loop: row `r` of table `t` claims its (so far unclaimed) slot
+pub proof fn lemma_de_row<R: Registry>(vx_pre: Seq<Option<Slot<R>>>, vx_new: Seq<Option<Slot<R>>>, vx_fr: Seq<entity::Identifier>,
+    vx_m: IMap<archetype::IdentifierRef<R>, archetype::Archetype<R>>, keys: Seq<archetype::IdentifierRef<R>>, t: int, r: int)
+    requires
+        0 <= t < keys.len(), vx_m[keys[t]].key() == keys[t], 0 <= r < vx_m[keys[t]].length,
+        vx_m[keys[t]].ids()[r].index < vx_pre.len(), vx_pre[vx_m[keys[t]].ids()[r].index as int] is None,
+        vx_new == vx_pre.update(vx_m[keys[t]].ids()[r].index as int, vx_row_slot(vx_m[keys[t]], keys[t], r)),
+        vx_free_claimed(vx_pre, vx_fr, vx_fr.len() as int),
+        forall|j: int| 0 <= j < t ==> vx_rows_claimed(vx_pre, #[trigger] vx_m[keys[j]], keys[j], vx_m[keys[j]].length as int),
+        vx_rows_claimed(vx_pre, vx_m[keys[t]], keys[t], r),
+        forall|s: int| 0 <= s < vx_pre.len() && (#[trigger] vx_pre[s]) is Some ==> vx_claimed_by(s, vx_fr, vx_fr.len() as int, vx_m, keys, t, r),
+    ensures
+        vx_free_claimed(vx_new, vx_fr, vx_fr.len() as int),
+        forall|j: int| 0 <= j < t ==> vx_rows_claimed(vx_new, #[trigger] vx_m[keys[j]], keys[j], vx_m[keys[j]].length as int),
+        vx_rows_claimed(vx_new, vx_m[keys[t]], keys[t], r + 1),
+        forall|s: int| 0 <= s < vx_new.len() && (#[trigger] vx_new[s]) is Some ==> vx_claimed_by(s, vx_fr, vx_fr.len() as int, vx_m, keys, t, r + 1),
+        vx_opt_active(vx_new) == vx_opt_active(vx_pre) + 1,
+{
+                let tb = vx_m[keys[t]];
+                let e = tb.ids()[r];
+                assert(tb.key() == keys[t]);
+                assert(vx_new == vx_pre.update(e.index as int, vx_row_slot(tb, keys[t], r)));
+                lemma_opt_claim(vx_pre, e.index as int, vx_row_slot(tb, keys[t], r));
+                // nothing claimed before sits at the index just claimed (it was None)
+                assert forall|j: int| 0 <= j < vx_fr.len() implies (#[trigger] vx_fr[j]).index != e.index by {
+                    assert(vx_pre[vx_fr[j].index as int] is Some);
+                }
+                assert(vx_free_claimed(vx_new, vx_fr, vx_fr.len() as int));
+                assert forall|j: int| 0 <= j < t implies vx_rows_claimed(vx_new, #[trigger] vx_m[keys[j]], keys[j], vx_m[keys[j]].length as int) by {
+                    let tj = vx_m[keys[j]];
+                    assert(vx_rows_claimed(vx_pre, tj, keys[j], tj.length as int));
+                    assert forall|q: int| 0 <= q < tj.length implies (#[trigger] tj.ids()[q]).index < vx_new.len() && vx_new[tj.ids()[q].index as int] == vx_row_slot(tj, keys[j], q) by {
+                        assert(vx_pre[tj.ids()[q].index as int] is Some);
+                    }
+                }
+                assert(vx_rows_claimed(vx_new, tb, keys[t], r + 1)) by {
+                    assert forall|q: int| 0 <= q < r + 1 implies (#[trigger] tb.ids()[q]).index < vx_new.len() && vx_new[tb.ids()[q].index as int] == vx_row_slot(tb, keys[t], q) by {
+                        if q < r { assert(vx_pre[tb.ids()[q].index as int] is Some); }
+                    }
+                }
+                assert forall|s: int| 0 <= s < vx_new.len() && (#[trigger] vx_new[s]) is Some implies vx_claimed_by(s, vx_fr, vx_fr.len() as int, vx_m, keys, t, r + 1) by {
+                    if s == e.index as int {
+                        assert(0 <= r < r + 1 && t < keys.len() && vx_m[keys[t]].ids()[r].index == s);
+                    } else {
+                        assert(vx_pre[s] is Some);
+                        assert(vx_claimed_by(s, vx_fr, vx_fr.len() as int, vx_m, keys, t, r));
+                        if exists|q: int| 0 <= q < r && t < keys.len() && (#[trigger] vx_m[keys[t]].ids()[q]).index == s {
+                            let q = choose|q: int| 0 <= q < r && t < keys.len() && (#[trigger] vx_m[keys[t]].ids()[q]).index == s;
+                            assert(0 <= q < r + 1 && t < keys.len() && vx_m[keys[t]].ids()[q].index == s);
+                        }
+                    }
+                }
+
+}
 '''
 
 
@@ -156,43 +300,9 @@ L1_STEP = r"""proof {
             }"""
 
 L3_STEP = r"""proof {
-                let t = vx_i1 as int;
-                let tb = vx_m[vx_keys1@[t]];
-                let r = i as int;
-                let e = tb.ids()[r];
-                assert(e == *entity_identifier);
-                assert(tb.key() == vx_keys1@[t]);
-                assert(slots@ == vx_pre.update(e.index as int, vx_row_slot(tb, vx_keys1@[t], r)));
-                lemma_opt_claim(vx_pre, e.index as int, vx_row_slot(tb, vx_keys1@[t], r));
-                // nothing claimed before sits at the index just claimed (it was None)
-                assert forall|j: int| 0 <= j < vx_fr.len() implies (#[trigger] vx_fr[j]).index != e.index by {
-                    assert(vx_pre[vx_fr[j].index as int] is Some);
-                }
-                assert(vx_free_claimed(slots@, vx_fr, vx_fr.len() as int));
-                assert forall|j: int| 0 <= j < t implies vx_rows_claimed(slots@, #[trigger] vx_m[vx_keys1@[j]], vx_keys1@[j], vx_m[vx_keys1@[j]].length as int) by {
-                    let tj = vx_m[vx_keys1@[j]];
-                    assert(vx_rows_claimed(vx_pre, tj, vx_keys1@[j], tj.length as int));
-                    assert forall|q: int| 0 <= q < tj.length implies (#[trigger] tj.ids()[q]).index < slots@.len() && slots@[tj.ids()[q].index as int] == vx_row_slot(tj, vx_keys1@[j], q) by {
-                        assert(vx_pre[tj.ids()[q].index as int] is Some);
-                    }
-                }
-                assert(vx_rows_claimed(slots@, tb, vx_keys1@[t], r + 1)) by {
-                    assert forall|q: int| 0 <= q < r + 1 implies (#[trigger] tb.ids()[q]).index < slots@.len() && slots@[tb.ids()[q].index as int] == vx_row_slot(tb, vx_keys1@[t], q) by {
-                        if q < r { assert(vx_pre[tb.ids()[q].index as int] is Some); }
-                    }
-                }
-                assert forall|s: int| 0 <= s < slots@.len() && (#[trigger] slots@[s]) is Some implies vx_claimed_by(s, vx_fr, vx_fr.len() as int, vx_m, vx_keys1@, t, r + 1) by {
-                    if s == e.index as int {
-                        assert(0 <= r < r + 1 && t < vx_keys1@.len() && vx_m[vx_keys1@[t]].ids()[r].index == s);
-                    } else {
-                        assert(vx_pre[s] is Some);
-                        assert(vx_claimed_by(s, vx_fr, vx_fr.len() as int, vx_m, vx_keys1@, t, r));
-                        if exists|q: int| 0 <= q < r && t < vx_keys1@.len() && (#[trigger] vx_m[vx_keys1@[t]].ids()[q]).index == s {
-                            let q = choose|q: int| 0 <= q < r && t < vx_keys1@.len() && (#[trigger] vx_m[vx_keys1@[t]].ids()[q]).index == s;
-                            assert(0 <= q < r + 1 && t < vx_keys1@.len() && vx_m[vx_keys1@[t]].ids()[q].index == s);
-                        }
-                    }
-                }
+                assert(vx_m[vx_keys1@[vx_i1 as int]].ids()[i as int] == *entity_identifier);
+                assert(vx_m[vx_keys1@[vx_i1 as int]].key() == vx_keys1@[vx_i1 as int]);
+                lemma_de_row(vx_pre, slots@, vx_fr, vx_m, vx_keys1@, vx_i1 as int, i as int);
             }"""
 
 L2_STEP = r"""proof {
@@ -215,71 +325,8 @@ L2_STEP = r"""proof {
         }"""
 
 END_PROOF = r"""proof {
-            let n = vx_keys1@.len() as int;
-            let a = Allocator::<R> { slots: vx_slots, free: vx_free };
-            assert(a.slots@.len() == vx_sl.len());
-            assert forall|s: int| 0 <= s < vx_sl.len() implies (#[trigger] a.slots@[s]) == vx_sl[s]->0 && vx_sl[s] is Some by { }
-            // free list: in bounds, inactive, distinct
-            assert forall|j: int| 0 <= j < a.free@.len() implies (#[trigger] a.free@[j]) < a.slots@.len() && a.slots@[a.free@[j] as int].location is None by {
-                assert(a.free@[j] == vx_fr[j].index);
-                assert(vx_sl[vx_fr[j].index as int] == vx_free_slot::<R>(vx_fr[j]));
-            }
-            assert forall|i: int, j: int| 0 <= i < j < a.free@.len() implies a.free@[i] != a.free@[j] by {
-                assert(vx_fr[i].index != vx_fr[j].index);
-            }
-            // complete: an inactive slot was claimed by a free entry (rows claim active slots)
-            assert forall|s: int| 0 <= s < a.slots@.len() && (#[trigger] a.slots@[s]).location is None implies a.free@.contains(s as usize) by {
-                assert(vx_sl[s] is Some);
-                assert(vx_claimed_by(s, vx_fr, vx_fr.len() as int, vx_m, vx_keys1@, n, 0));
-                if exists|j: int, q: int| 0 <= j < n && 0 <= q < vx_m[vx_keys1@[j]].length && (#[trigger] vx_m[vx_keys1@[j]].ids()[q]).index == s {
-                    let (j, q) = choose|j: int, q: int| 0 <= j < n && 0 <= q < vx_m[vx_keys1@[j]].length && (#[trigger] vx_m[vx_keys1@[j]].ids()[q]).index == s;
-                    assert(vx_rows_claimed(vx_sl, vx_m[vx_keys1@[j]], vx_keys1@[j], vx_m[vx_keys1@[j]].length as int));
-                    assert(vx_sl[s] == vx_row_slot(vx_m[vx_keys1@[j]], vx_keys1@[j], q));
-                    assert(false);
-                }
-                let j = choose|j: int| 0 <= j < vx_fr.len() && (#[trigger] vx_fr[j]).index == s;
-                assert(a.free@[j] == s as usize);
-            }
-            assert(a.wf());
-            // entity count: active slots == claimed slots with a location == rows of all tables
-            lemma_opt_unwrap(vx_sl, a.slots@);
-            assert(vx_keys1@.take(n) =~= vx_keys1@);
-            lemma_total_rows(vx_m, vx_keys1@);
-            assert(a.active_count() == vx_total_rows(vx_m));
-            // every table agrees with the allocator
-            assert forall|k: archetype::IdentifierRef<R>| vx_m.dom().contains(k) implies (#[trigger] vx_m[k]).agrees(&a) by {
-                assert(vx_keys1@.contains(k));
-                let j = choose|j: int| 0 <= j < n && vx_keys1@[j] == k;
-                let tb = vx_m[k];
-                assert(tb.key() == k);
-                assert(vx_rows_claimed(vx_sl, vx_m[vx_keys1@[j]], vx_keys1@[j], vx_m[vx_keys1@[j]].length as int));
-                assert forall|q: int| 0 <= q < tb.length implies a.resolves(#[trigger] tb.ids()[q])
-                    && a.view()[tb.ids()[q]] == (Location { identifier: tb.key(), index: q as usize }) by {
-                    assert(vx_sl[tb.ids()[q].index as int] == vx_row_slot(tb, k, q));
-                }
-            }
-            // every accepted identifier is stored
-            assert forall|id: entity::Identifier| a.resolves(id) implies ({
-                let l = #[trigger] a.view()[id];
-                vx_m.dom().contains(l.identifier) && l.index < vx_m[l.identifier].length && vx_m[l.identifier].ids()[l.index as int] == id
-            }) by {
-                let s = id.index as int;
-                assert(vx_sl[s] is Some);
-                assert(vx_claimed_by(s, vx_fr, vx_fr.len() as int, vx_m, vx_keys1@, n, 0));
-                if exists|j: int| 0 <= j < vx_fr.len() && (#[trigger] vx_fr[j]).index == s {
-                    let j = choose|j: int| 0 <= j < vx_fr.len() && (#[trigger] vx_fr[j]).index == s;
-                    assert(vx_sl[s] == vx_free_slot::<R>(vx_fr[j]));
-                    assert(false);
-                }
-                let (j, q) = choose|j: int, q: int| 0 <= j < n && 0 <= q < vx_m[vx_keys1@[j]].length && (#[trigger] vx_m[vx_keys1@[j]].ids()[q]).index == s;
-                let tb = vx_m[vx_keys1@[j]];
-                assert(vx_keys1@.contains(vx_keys1@[j]));
-                assert(vx_m.dom().contains(vx_keys1@[j]));
-                assert(vx_rows_claimed(vx_sl, tb, vx_keys1@[j], tb.length as int));
-                assert(vx_sl[s] == vx_row_slot(tb, vx_keys1@[j], q));
-                assert(tb.ids()[q].generation == id.generation && tb.ids()[q].index == id.index);
-                assert(tb.ids()[q] == id);
-            }
+            assert(vx_keys1@.take(vx_keys1@.len() as int) =~= vx_keys1@);
+            lemma_de_end(vx_sl, vx_fr, vx_m, vx_keys1@, Allocator::<R> { slots: vx_slots, free: vx_free });
         }"""
 
 
